@@ -143,10 +143,10 @@ def restartSteps {F : Type} (sys : Sys F) (m : MC F) : List (MC F) :=
   if m.alive then [] else
   let f0 := sys.restart m.f
   if isFinished m.st then [⟨m.st, f0, none, true, false⟩]
-  -- a record persisted before its first transition has no action: `Recover` fails with ErrFsmConfig
-  -- after `lockSwap`, so the swap stays in the active map in its initial state
-  else if (actsOf sys.table m.st).isEmpty then [⟨m.st, f0, none, true, true⟩]
   else if failOnRecover sys.table m.st then [⟨m.st, f0, some E_ActionFailed, true, true⟩]
+  -- a state without an action that is not failed on recovery: `Recover` fails with ErrFsmConfig after
+  -- `lockSwap`, so the swap stays in the active map as it is
+  else if (actsOf sys.table m.st).isEmpty then [⟨m.st, f0, none, true, true⟩]
   else actionDone sys m.st f0 true ++ actionCrash sys m.st f0 ⟨m.st, f0, none, false, true⟩
 
 def succs {F : Type} (sys : Sys F) (m : MC F) : List (MC F) :=
